@@ -26,6 +26,8 @@ Lemma keeps_bind {A B} I (c : M A) (k : A -> M B) :
 Proof.
   intros Hc Hk w Hw. rewrite bind_unfold. destruct (rv (c w)); cbn; [apply Hk|]; apply Hc, Hw.
 Qed.
+Lemma keeps_finally {A} I (c : M A) (g : M unit) : keeps I c -> keeps I g -> keeps I (finally_ c g).
+Proof. intros Hc Hg w Hw. unfold finally_. destruct (rv (g (rw (c w)))); cbn [rw]; apply Hg, Hc, Hw. Qed.
 Lemma keeps_try {A} I (c : M A) : keeps I c -> keeps I (try_ c).
 Proof. intros H w Hw. unfold try_. destruct (rv (c w)); cbn; apply H, Hw. Qed.
 (* a projection that is preserved keeps every invariant stated through it *)
@@ -247,6 +249,13 @@ Qed.
 
 (* ------------------------------------------------------------------ pre_handlers *)
 
+Lemma get_int_inv t m n : get_int t m = inl n ->
+  exists v, get t (mtags m) = Some v /\ py_int v = Some n.
+Proof.
+  unfold get_int. destruct (get t (mtags m)) as [v|]; [|discriminate].
+  destruct (py_int v) eqn:E; [|discriminate]. intros H. inversion H. subst. eauto.
+Qed.
+
 Lemma logon_not_resend tags : is_resend (mkMsg MT_LOGON tags) = false. Proof. reflexivity. Qed.
 Lemma logout_not_resend tags : is_resend (mkMsg MT_LOGOUT tags) = false. Proof. reflexivity. Qed.
 Lemma heartbeat_not_resend tags : is_resend (mkMsg MT_HEARTBEAT tags) = false. Proof. reflexivity. Qed.
@@ -259,7 +268,7 @@ Proof.
   destruct (mkind m); try solve [allev_tac].
   - apply process_logon_allev; cbn; auto.
   - apply process_seqreset_allev.
-  - apply process_logout_allev; cbn; auto.
+  - apply logout_counted_allev; cbn; auto.
 Qed.
 
 Lemma pre_handlers_not_resend c m w0 : allev not_resend (pre_handlers c m w0).
@@ -269,16 +278,56 @@ Proof.
   destruct (mkind m); try solve [allev_tac].
   - apply process_logon_allev; cbn; auto.
   - apply process_seqreset_allev.
-  - apply process_logout_allev; cbn; auto.
+  - apply logout_counted_allev; cbn; auto.
 Qed.
 
-Lemma pre_handlers_nin c m w0 : mkind m <> KSeqReset -> pres nin (pre_handlers c m w0).
+Lemma pre_handlers_nin c m w0 : mkind m <> KSeqReset -> mkind m <> KLogout -> pres nin (pre_handlers c m w0).
 Proof.
-  intros Hk. unfold pre_handlers. pres_step.
+  intros Hk Hl. unfold pre_handlers. pres_step.
   { destruct (st w0 =? ST_NCE); [|pres_tac]. pres_step; [apply state_set_pres; ins_solve|pres_tac]. }
   destruct (mkind m); try solve [pres_tac]; try congruence.
-  - apply process_logon_pres; ins_solve.
-  - apply process_logout_pres; ins_solve.
+  apply process_logon_pres; ins_solve.
+Qed.
+
+(* the peer's Logout: after it returned the connection is dead; it counts the Logout when it is in sequence *)
+Lemma logout_counted_dead c m w : rv (logout_counted c m w) = inl tt -> dead (rw (logout_counted c m w)).
+Proof.
+  unfold logout_counted. rewrite bind_unfold. destruct (get_int T34 m) as [n|x]; cbn [lift ret raise rv rw re]; [|discriminate].
+  rewrite bind_unfold. cbn [getw rv rw re]. rewrite bind_unfold.
+  destruct (rv ((if n =? nin w then set_next_num_in m;;; persist_in m else ret tt) w)); cbn [rv rw re]; [|discriminate].
+  intros _. apply process_logout_dead.
+Qed.
+
+Lemma logout_counted_nin c m w :
+  mkind m <> KSeqReset ->
+  nin (rw (logout_counted c m w)) = nin w
+  \/ (get_int T34 m = inl (nin w) /\ nin (rw (logout_counted c m w)) = nin w + 1).
+Proof.
+  intros Hnk.
+  assert (Hl : pres nin (process_logout c m)) by (apply process_logout_pres; ins_solve).
+  assert (Hp : pres nin (persist_in m)) by (apply persist_in_pres; ins_solve).
+  unfold logout_counted. rewrite bind_unfold. destruct (get_int T34 m) as [n|x] eqn:En; cbn [lift ret raise rv rw re]; [|left; reflexivity].
+  rewrite bind_unfold. cbn [getw rv rw re]. rewrite bind_unfold.
+  destruct (n =? nin w) eqn:E.
+  - assert (n = nin w) by lia. subst n. right. split; [reflexivity|].
+    assert (Hs : nin (rw ((set_next_num_in m;;; persist_in m) w)) = nin w + 1).
+    { rewrite bind_unfold. apply get_int_inv in En. destruct En as [v [Hg Hv]].
+      assert (Hset : set_next_num_in m w = mkR (inl (nin w)) (set_nin (nin w + 1) w) []).
+      { unfold set_next_num_in. destruct (mkind m) eqn:Ek; try congruence; rewrite Hg, Hv; msimp; rewrite Z.eqb_refl; reflexivity. }
+      rewrite Hset. cbn [rv rw re]. rewrite Hp. reflexivity. }
+    destruct (rv ((set_next_num_in m;;; persist_in m) w)); cbn [rv rw re]; [rewrite Hl|]; exact Hs.
+  - left. cbn [ret rv rw re]. apply Hl.
+Qed.
+
+Lemma logout_counted_aw c m : keeps aw_or_dead (logout_counted c m).
+Proof.
+  assert (Hn : keeps aw_or_dead (set_next_num_in m)).
+  { apply (keeps_pres st (fun s => s = ST_AWAITING \/ s <= ST_DISC_BROKEN)). apply set_next_num_in_pres. ins_solve. }
+  assert (Hp : keeps aw_or_dead (persist_in m)).
+  { apply (keeps_pres st (fun s => s = ST_AWAITING \/ s <= ST_DISC_BROKEN)). apply persist_in_pres. ins_solve. }
+  unfold logout_counted. keeps_step; [keeps_tac|]. keeps_step; [keeps_tac|].
+  keeps_step; [destruct (_ =? _); [keeps_step; [apply Hn|apply Hp]|keeps_tac]|].
+  intros w _. right. apply process_logout_dead.
 Qed.
 
 Lemma pre_handlers_aw c m w0 :
@@ -289,15 +338,30 @@ Proof.
   destruct (mkind m); try solve [keeps_tac]; try congruence.
   - apply (keeps_pres st (fun s => s = ST_AWAITING \/ s <= ST_DISC_BROKEN)).
     apply process_seqreset_pres; ins_solve.
-  - intros w _. right. apply process_logout_dead.
+  - apply logout_counted_aw.
 Qed.
 
-Lemma pre_handlers_logout_dead c m w0 w : mkind m = KLogout -> dead (rw (pre_handlers c m w0 w)).
+Lemma pre_handlers_prefix_ok w0 w :
+  let A := (if st w0 =? ST_NCE then state_set ST_LOGON_RECV ;;; modw (set_role ROLE_ACCEPTOR) else ret tt) w in
+  rv A = inl tt /\ nin (rw A) = nin w.
+Proof. cbn zeta. destruct (st w0 =? ST_NCE); split; reflexivity. Qed.
+
+Lemma pre_handlers_logout_dead c m w0 w :
+  mkind m = KLogout -> rv (pre_handlers c m w0 w) = inl tt -> dead (rw (pre_handlers c m w0 w)).
 Proof.
   intros Hk. unfold pre_handlers. rewrite bind_unfold. rewrite Hk.
-  set (A := (if st w0 =? ST_NCE then state_set ST_LOGON_RECV ;;; modw (set_role ROLE_ACCEPTOR) else ret tt) w).
-  assert (HA : rv A = inl tt) by (subst A; destruct (st w0 =? ST_NCE); reflexivity).
-  rewrite HA. cbn [rv rw re]. apply process_logout_dead.
+  destruct (pre_handlers_prefix_ok w0 w) as [HA _]. cbn zeta in HA. rewrite HA. cbn [rv rw re].
+  apply logout_counted_dead.
+Qed.
+
+Lemma pre_handlers_logout_nin c m w0 w :
+  mkind m = KLogout ->
+  nin (rw (pre_handlers c m w0 w)) = nin w
+  \/ (get_int T34 m = inl (nin w) /\ nin (rw (pre_handlers c m w0 w)) = nin w + 1).
+Proof.
+  intros Hk. unfold pre_handlers. rewrite bind_unfold. rewrite Hk.
+  destruct (pre_handlers_prefix_ok w0 w) as [HA HN]. cbn zeta in HA, HN. rewrite HA. cbn [rv rw re].
+  rewrite <- HN. apply logout_counted_nin. congruence.
 Qed.
 
 (* ------------------------------------------------------------------ gap_check *)
@@ -366,17 +430,27 @@ Record p1_spec (c : cfg) (m : msg) (w : world) (r : res (option bool)) : Prop :=
               (exists rr, resends (re r) = [rr] /\ (st w <> ST_AWAITING \/ mkind m = KLogon)
                           /\ get T7 (mtags rr) = Some (z_to_dec (nin (rw r))) /\ get T16 (mtags rr) = Some S_0
                           /\ rv r <> inl (Some true));
-  p1_nin : mkind m <> KSeqReset -> nin (rw r) = nin w;
+  p1_nin : mkind m <> KSeqReset -> mkind m <> KLogout -> nin (rw r) = nin w;
   p1_apps : apps (re r) = [];
   p1_aw : st w = ST_AWAITING -> mkind m <> KLogon -> aw_or_dead (rw r);
-  p1_false : rv r = inl (Some false) -> st (rw r) = ST_AWAITING
+  p1_false : rv r = inl (Some false) -> st (rw r) = ST_AWAITING;
+  (* the peer's Logout: never reaches the dispatcher; counted (+1) exactly when it carries the expected number *)
+  p1_logout : mkind m = KLogout ->
+              (forall b, rv r <> inl (Some b))
+              /\ (nin (rw r) = nin w \/ (get_int T34 m = inl (nin w) /\ nin (rw r) = nin w + 1))
 }.
+
+Lemma gap_check_dead c m w : dead w -> gap_check c m w = mkR (inl None) w [].
+Proof.
+  intros H. unfold dead in H. unfold gap_check. rewrite bind_unfold. cbn [getw rv rw re].
+  destruct (st w <=? ST_DISC_BROKEN) eqn:E; [reflexivity|lia].
+Qed.
 
 Lemma part1_spec c m w : p1_spec c m w (part1 c m w).
 Proof.
   unfold part1. rewrite bind_unfold. cbn [getw rv rw re app].
   destruct (st w <? ST_NCE) eqn:E6.
-  { cbn. constructor; cbn; try discriminate; auto. intros H. left. exact H. }
+  { cbn. constructor; cbn; try discriminate; auto. intros H. left. exact H. intros _. split; [discriminate|auto]. }
   destruct ((st w =? ST_NCE) && negb match mkind m with KLogon => true | _ => false end) eqn:Enl.
   { (* first message is not a Logon *)
     rewrite bind_unfold.
@@ -391,18 +465,23 @@ Proof.
     destruct (disconnect c ST_DISC_BROKEN None w) as [rd wd ed]. cbn [rv rw re] in *.
     destruct rd; cbn [ret rv rw re]; rewrite ?app_nil_r; constructor; cbn [rv rw re]; auto; try discriminate.
     - intros Hs. apply andb_true_iff in Enl. stlia.
-    - intros Hs. apply andb_true_iff in Enl. stlia. }
+    - intros _. split; [discriminate|auto].
+    - intros Hs. apply andb_true_iff in Enl. stlia.
+    - intros _. split; [discriminate|auto]. }
   rewrite bind_unfold.
   pose proof (pre_handlers_not_app c m w w) as Hpa. apply apps_nil in Hpa.
   pose proof (pre_handlers_not_resend c m w w) as Hpr. apply resends_nil in Hpr.
-  pose proof (fun Hk => pre_handlers_nin c m w Hk w) as Hpn.
+  pose proof (fun Hk Hl => pre_handlers_nin c m w Hk Hl w) as Hpn.
   pose proof (fun a b H => pre_handlers_aw c m w a b w H) as Hpw.
   pose proof (pre_handlers_logout_dead c m w w) as Hlo.
+  pose proof (pre_handlers_logout_nin c m w w) as Hln.
   destruct (pre_handlers c m w w) as [rp wp ep] eqn:Ep. cbn [rv rw re] in *.
   destruct rp as [[]|x]; cbn [rv rw re].
   2:{ constructor; cbn [rv rw re]; auto; try discriminate.
-      intros Hs Hk. apply Hpw; auto; [stlia|]. left. exact Hs. }
+      - intros Hs Hk. apply Hpw; auto; [stlia|]. left. exact Hs.
+      - intros Hk. split; [discriminate|auto]. }
   pose proof (gap_check_spec c m wp) as [Gt Gf Gr Gn Ga Gw].
+  pose proof (gap_check_dead c m wp) as Hgd.
   destruct (gap_check c m wp) as [rg wg eg]. cbn [rv rw re] in *.
   constructor; cbn [rv rw re].
   - intros Hs. destruct (Gt Hs) as [n [H1 [H2 [H3 [H4 H5]]]]]. exists n. subst wg. repeat split; auto; try lia.
@@ -413,13 +492,29 @@ Proof.
     right. destruct (mkind m) eqn:Ek; auto; exfalso;
       (assert (Haw : aw_or_dead wp) by (apply Hpw; [stlia | congruence | left; exact Es]));
       destruct Haw as [Haw|Haw]; auto.
-  - intros Hk. rewrite Gn. apply (Hpn Hk).
+  - intros Hk Hl. rewrite Gn. apply (Hpn Hk Hl).
   - rewrite apps_app, Hpa, Ga. reflexivity.
   - intros Hs Hk. apply Gw. apply Hpw; auto; [stlia|]. left. exact Hs.
   - exact Gf.
+  - intros Hk. specialize (Hgd (Hlo Hk eq_refl)). inversion Hgd. subst. split; [discriminate|]. apply Hln. exact Hk.
 Qed.
 
 (* ------------------------------------------------------------------ dispatch *)
+
+Lemma restore_handling_allev (P : event -> Prop) : P (State ST_ACTIVE) -> allev P restore_handling.
+Proof.
+  intros H. unfold restore_handling. allev_step; [allev_tac|]. destruct (st a =? ST_HANDLING); [|allev_tac].
+  apply state_set_allev. exact H.
+Qed.
+
+Lemma resend_served_allev c m (P : event -> Prop) :
+  P (State ST_LOGON_SENT) -> (forall tags, P (Wire (mkMsg MT_SEQUENCERESET tags))) ->
+  (forall t tags, is_noreply t = false -> P (Wire (mkMsg t tags))) ->
+  P (State ST_HANDLING) -> P (State ST_ACTIVE) ->
+  allev P (finally_ (process_resend c m) restore_handling).
+Proof.
+  intros. apply allev_finally; [apply process_resend_allev; auto|apply restore_handling_allev; auto].
+Qed.
 
 Definition delivers (m : msg) : bool :=
   match mkind m with KApp | KLogout => true | _ => false end.
@@ -446,7 +541,7 @@ Proof.
   unfold dispatch, delivers. destruct (mkind m) eqn:Ek; rewrite ?andb_false_r; cbn [ret re apps andb];
     try reflexivity.
   - rewrite deliver_branch_unfold. cbn [re]. rewrite andb_true_r. destruct (v && seq_is_expected m w); reflexivity.
-  - apply apps_nil. apply process_resend_allev; cbn; auto.
+  - apply apps_nil. apply resend_served_allev; cbn; auto.
   - apply apps_nil. apply process_testrequest_allev; cbn; auto.
   - apply apps_nil. apply process_heartbeat_allev; cbn; auto.
   - rewrite deliver_branch_unfold. cbn [re]. rewrite andb_true_r. destruct (v && seq_is_expected m w); reflexivity.
@@ -455,7 +550,7 @@ Qed.
 Lemma dispatch_not_resend c m v : allev not_resend (dispatch c m v).
 Proof.
   unfold dispatch. destruct (mkind m); try solve [allev_tac].
-  - apply process_resend_allev; cbn; auto. intros t tags Ht. now apply noreply_not_resend.
+  - apply resend_served_allev; cbn; auto. intros t tags Ht. now apply noreply_not_resend.
   - apply process_testrequest_allev; cbn; auto.
   - apply process_heartbeat_allev; cbn; auto.
 Qed.
@@ -523,7 +618,10 @@ Lemma dispatch_aw c m v w : awaiting w -> aw_or_dead (rw (dispatch c m v w)).
 Proof.
   intros Hw. unfold dispatch. destruct (mkind m); try (left; exact Hw).
   - rewrite deliver_branch_unfold. left. exact Hw.
-  - left. apply process_resend_awaiting. exact Hw.
+  - left. assert (keeps awaiting (finally_ (process_resend c m) restore_handling)) as H; [|apply H; exact Hw].
+    apply keeps_finally; [apply process_resend_awaiting|].
+    unfold restore_handling. apply keeps_bind_getw. intros w0 H0 w1 ->. unfold awaiting in H0.
+    destruct (st w0 =? ST_HANDLING) eqn:E; [stlia|exact H0].
   - apply send_msg_keeps_aw. left. exact Hw.
   - assert (Hd : forall lm, keeps aw_or_dead (disconnect c ST_DISC_BROKEN lm))
       by (intros; apply disconnect_keeps_aw; stlia).
@@ -557,12 +655,6 @@ Proof. apply finalize_allev. exact I. Qed.
 Lemma finalize_not_resend m now : allev not_resend (finalize m now).
 Proof. apply finalize_allev. exact I. Qed.
 
-Lemma get_int_inv t m n : get_int t m = inl n ->
-  exists v, get t (mtags m) = Some v /\ py_int v = Some n.
-Proof.
-  unfold get_int. destruct (get t (mtags m)) as [v|]; [|discriminate].
-  destruct (py_int v) eqn:E; [|discriminate]. intros H. inversion H. subst. eauto.
-Qed.
 
 Lemma finalize_tail_nin m now r : pres nin (finalize_tail m now r).
 Proof. apply finalize_tail_pres. ins_solve. Qed.
@@ -665,15 +757,24 @@ Proof.
   2: apply pm_disconnect. 2: apply pm_disconnect.
   2:{ cbn. constructor; cbn; auto. intros Hs _. left. exact Hs. }
   rewrite bind_unfold. unfold try_ at 1 2 3 4 5 6.
-  pose proof (part1_spec c m w) as [Pt Pr Pn Pa Pw Pf].
+  pose proof (part1_spec c m w) as [Pt Pr Pn0 Pa Pw Pf Pl].
   destruct (part1 c m w) as [r1 w1 e1]. cbn [rv rw re] in *.
   assert (Pr' : resends e1 = [] \/
                 (exists rr, resends e1 = [rr] /\ (st w <> ST_AWAITING \/ mkind m = KLogon)
                             /\ get T7 (mtags rr) = Some (z_to_dec (nin w1)) /\ get T16 (mtags rr) = Some S_0)).
   { destruct Pr as [Pr|[rr [? [? [? [? ?]]]]]]; [left; auto|right; exists rr; auto]. }
+  (* how the expected number stands after the try body, whatever the kind *)
+  assert (Pnin : mkind m <> KSeqReset ->
+                 nin w1 = nin w \/ (get_int T34 m = inl (nin w) /\ nin w1 = nin w + 1 /\ mkind m = KLogout)).
+  { intros Hk. destruct (mkind m) eqn:Ek; try (left; apply Pn0; congruence).
+    destruct (Pl eq_refl) as [_ [H|[H1 H2]]]; [left; exact H|right; auto]. }
+  (* when the dispatcher is reached the message is not a Logout *)
+  assert (Pnl : forall b, r1 = inl (Some b) -> mkind m <> KLogout).
+  { intros b Hb Hk. destruct (Pl Hk) as [Hn _]. apply (Hn b). exact Hb. }
   destruct r1 as [[[|]|]|x]; cbn [rv rw re after_part1].
   - (* is_valid_msg_num = True *)
     destruct (Pt eq_refl) as [n [Hn [Hle [Hlo [H6 Hnd]]]]].
+    assert (Pn : mkind m <> KSeqReset -> nin w1 = nin w) by (intros Hk; apply Pn0; auto).
     rewrite bind_unfold. unfold try_.
     pose proof (dispatch_apps c m true w1) as Da.
     pose proof (resends_nil _ (dispatch_not_resend c m true w1)) as Dr.
@@ -700,6 +801,8 @@ Proof.
     1,2: (intros Hs Hk; apply Fw; specialize (Pw Hs Hk); destruct Pw as [Pw|Pw];
       [apply Dw; exact Pw | contradiction]).
   - (* is_valid_msg_num = False *)
+    assert (Pn : mkind m <> KSeqReset -> nin w1 = nin w)
+      by (intros Hk; apply Pn0; [exact Hk|apply (Pnl false); reflexivity]).
     rewrite bind_unfold. unfold try_.
     pose proof (dispatch_apps c m false w1) as Da.
     pose proof (resends_nil _ (dispatch_not_resend c m false w1)) as Dr.
@@ -714,11 +817,13 @@ Proof.
   - (* early return *)
     cbn [ret rv rw re]. rewrite app_nil_r.
     constructor; cbn [rv rw re]; auto.
-    intros Hs Hk. apply aw_closed. auto.
+    + intros Hk. destruct (Pnin Hk) as [H|[H1 [H2 _]]]; [left; exact H|right; auto].
+    + intros Hs Hk. apply aw_closed. auto.
   - (* exception swallowed *)
     cbn [ret rv rw re]. rewrite app_nil_r.
     constructor; cbn [rv rw re]; auto.
-    intros Hs Hk. apply aw_closed. auto.
+    + intros Hk. destruct (Pnin Hk) as [H|[H1 [H2 _]]]; [left; exact H|right; auto].
+    + intros Hs Hk. apply aw_closed. auto.
 Qed.
 
 (* ------------------------------------------------------------------ SequenceReset: where the expected number can go *)
